@@ -335,7 +335,7 @@ class Schema(_JG):
     targets = (JG + ".schema",)
     returns = J.SCHEMA_T
     modifies = ("self", BUILDER)  # (the builder: `required` attaches an empty set to a strategy that has none - 63aba35)
-    # (callers use this summary: since 0717736 nobody edits the returned dictionary in place)
+    inline_ok = True  # returns the cached dictionary ITSELF: callers inline it, so that an in-place edit of the result is an edit of the cache
 
     def requires(self, c):
         return _JG.requires(self, c) + wfg_required(c.old.self)
@@ -469,10 +469,14 @@ json_cast = z3.Function("json_cast_value", J.ValS, J.ValS)
 
 
 # ---------------------------------------------------------------------------- updates
-def added(p1, p0, taken):
+def added(p1, p0, taken, node=None, merge=None):
     k = kq("k!ad")
-    return [("names", z3.ForAll([k], p1.has(k) == z3.Or(p0.has(k), taken(k)))),
-            ("others-kept", z3.ForAll([k], z3.Implies(z3.And(p0.has(k), z3.Not(taken(k))), p1.get(k) == p0.get(k))))]
+    out = [("names", z3.ForAll([k], p1.has(k) == z3.Or(p0.has(k), taken(k)))),
+           ("others-kept", z3.ForAll([k], z3.Implies(z3.And(p0.has(k), z3.Not(taken(k))), p1.get(k) == p0.get(k))))]
+    if node is not None:
+        # replaced, or (merge) genson-merged with the existing property schema
+        out.append(("new-schemas:replaced-or-merged", z3.ForAll([k], z3.Implies(taken(k), p1.get(k) == z3.If(z3.And(p0.has(k), merge), J.merged_node(p0.get(k), node(k)), node(k))))))
+    return out
 
 
 def parts_kept(g0, g1):
@@ -538,7 +542,7 @@ class UpdateFromSchema(_JG):
         g0, g1, s = c.old.self, c.new.self, c.old.schema
         k = kq()
         r0, r1 = req(g0), req(g1)
-        return added(props(g1), props(g0), _schema_props(s)) + [
+        return added(props(g1), props(g0), _schema_props(s), lambda x: J.props_nodes(s.get(P_))[x], c.old.merge) + [
             ("kept:defaults", same_dict(dfl(g1), dfl(g0))), ("kept:name", g1.name == g0.name),
             ("required:old-ones-kept", z3.ForAll([k], z3.Implies(r0.member[k], r1.member[k]))),
             ("required:only-those-of-the-schema-added", z3.ForAll([k], z3.Implies(r1.member[k], z3.Or(r0.member[k], _schema_required(s)(k))))),
@@ -837,6 +841,7 @@ class SimpleToSimple(Contract):
     targets = (SG + ".to_simple_grammar",)
     prop = ("C15",)
     returns = TObj(SG)
+    inline_ok = True  # (`return self`: callers inline it - a summary could only return a NEW object)
 
     def ensures(self, c):
         return [("itself", z3.BoolVal(c.result.ref == c.arg("self")))]
@@ -985,7 +990,7 @@ class UpdateFromFile(_JG):
         r0, r1 = req(g0), req(g1)
         in_props = lambda x: z3.And(m[P_], J.props_names(v[P_])[x])  # noqa: E731
         in_req = lambda x: z3.And(m[R_], J.names_of(v[R_])[x])  # noqa: E731
-        return added(props(g1), props(g0), in_props) + [
+        return added(props(g1), props(g0), in_props, lambda x: J.props_nodes(v[P_])[x], c.old.merge) + [
             ("kept:defaults", same_dict(dfl(g1), dfl(g0))), ("kept:name", g1.name == g0.name),
             ("required:exactly-the-old-ones-and-those-of-the-file", z3.ForAll([k], r1.member[k] == z3.Or(r0.member[k], in_req(k))))]
 
